@@ -42,6 +42,17 @@ def gen_cases(tier, seed):
                 cfg["encoder"] = bool(i % 3)
                 cfg["ctx"] = 2 if cfg["encoder"] else int(np.prod(shape)) * (2 if kind == "cond_diag" else 1)
             cases.append({"kind": "dist", "cfg": cfg, "seed": env.subseed(seed, "c05", kind, i), "world": "f64", "cost": 2})
+    # saturated logits handed straight to the Bernoulli (identity encoder): sigmoid(l) rounds to exactly 1 beyond 16.6 in
+    # float32 / 36.7 in float64, where formulas through the probability (x log p + (1-x) log(1-p)) produce 0 * -inf
+    for i, (world, sc) in enumerate((("f32", 30.0), ("f64", 80.0), ("f32", 60.0), ("f64", 30.0))):
+        shape = [[3], [2, 2]][i % 2]
+        cases.append({"kind": "dist", "cfg": {"dist": "bernoulli", "shape": shape, "encoder": False, "ctx": int(np.prod(shape))},
+                      "ctx_scale": sc, "seed": env.subseed(seed, "c05sat", i), "world": world, "cost": 1})
+    # MADE mixtures in 3-D with random masks and several feed-forward blocks (degrees differ between layers), larger weights
+    for i in range(4 if tier == "quick" else 40):
+        cfg = {"dist": "mademog", "features": 3, "hidden": [8, 12][i % 2], "ctx": [0, 2][i % 2], "comps": 1 + i % 3, "blocks": 2 + i % 2,
+               "residual": False, "random_mask": True, "narrow": False}
+        cases.append({"kind": "dist", "cfg": cfg, "pscale": 2.0, "seed": env.subseed(seed, "c05rm", i), "world": "f64", "cost": 4})
     for i in range(n):
         cfg = {"dist": "mademog", "features": 1 + i % 2, "hidden": 8, "ctx": [0, 2][i % 2 if i % 3 else 0], "comps": 1 + i % 5,
                "blocks": 1 + i % 2, "residual": bool(i % 2), "random_mask": False, "narrow": (1 + i % 2) == 1 and i % 4 == 0}   # narrow components only in 1-D (grid resolution)
@@ -97,7 +108,7 @@ def run_case(case):
 # ----------------------------------------------------------------------------- library Distribution classes
 def run_dist(r, case, g):
     cfg, seed = case["cfg"], case["seed"]
-    d = dzoo.build_dist(cfg, seed, pscale=1.0)
+    d = dzoo.build_dist(cfg, seed, pscale=case.get("pscale", 1.0))
     d.eval()
     me = dzoo.dist_meta(cfg)
     label = "dist_" + cfg["dist"]
@@ -105,7 +116,7 @@ def run_dist(r, case, g):
     P = int(np.prod(shape))
     det = dict(cfg=cfg)
     for row in range(1 if not me["ctx_shape"] else 2):
-        c = torch.randn([1] + me["ctx_shape"], generator=g) if me["ctx_shape"] else None
+        c = torch.randn([1] + me["ctx_shape"], generator=g) * case.get("ctx_scale", 1.0) if me["ctx_shape"] else None
         if c is None and me["needs_ctx"]:
             continue
 
@@ -120,7 +131,7 @@ def run_dist(r, case, g):
                 tot = float(torch.exp(lp(pts).double()).sum())
                 r.count("normalisation_checks")
                 r.worst("bernoulli_sum_err", abs(tot - 1))
-                if abs(tot - 1) > 1e-9:
+                if not abs(tot - 1) <= (1e-9 if torch.get_default_dtype() == torch.float64 else 1e-5):
                     r.viol("not_normalised", "%s probabilities do not sum to one" % label, total=tot, **det)
                 else:
                     r.cell(label, shape, "normalised")
@@ -130,6 +141,12 @@ def run_dist(r, case, g):
             elif P == 2:
                 I1, I2, est = q.integrate_2d(lambda x: lp(x), ("R",), ("R",), 300)
                 _judge_int(r, label, I2, est, 2e-3, 1e-2, shape, det)
+            elif cfg["dist"] == "mademog" and P == 3 and me["can_sample"]:
+                with torch.no_grad():
+                    sp_ = d.sample(20000, c)
+                sp_ = sp_.reshape(-1, P) if c is None else sp_[0].reshape(-1, P)
+                t64, t112 = _grid3(lp, sp_, 64)[0], _grid3(lp, sp_, 112)[0]
+                _judge_int(r, label, t112, abs(t112 - t64), 5e-3, 2e-2, shape, det)
             else:
                 _importance(r, d, lp, label, shape, P, me, c, g, det)
         except Exception as e:
@@ -155,11 +172,30 @@ def run_dist(r, case, g):
                     pj = torch.exp(lp(pts).double())
                     marg = (pj[:, None] * pts.double()).sum(0)
                 freq = s.double().mean(0)
-                z = (freq - marg).abs() / torch.sqrt(marg * (1 - marg) / NS + 1e-300)
+                # exact-tail (Chernoff) test instead of a normal approximation: with saturated logits the expected count is
+                # far below one.  torch.rand has 24 (float32) / 53 (float64) bits, so `rand < p` fires with probability
+                # ceil(p 2^24) / 2^24: the effective success probability lies in [p, p + granularity].
+                gran = 2.0 ** -24 if s.dtype == torch.float32 else 2.0 ** -53
+                worst_log = 0.0
+                for kk in range(P):
+                    cnt = float(freq[kk]) * NS
+                    lam_lo, lam_hi = float(marg[kk]) * NS, min(float(marg[kk]) + gran, 1.0) * NS
+                    for lam, wrong_side in ((lam_hi, cnt > lam_hi), (lam_lo, cnt < lam_lo)):
+                        if not wrong_side:
+                            continue
+                        # successes and failures are symmetric: bound the tail of the rarer outcome
+                        for c_, l_ in ((cnt, lam), (NS - cnt, NS - lam)):
+                            if l_ <= 0:
+                                logb = 0.0 if c_ <= 0 else -1e9
+                            elif c_ <= 0:
+                                logb = -l_
+                            else:
+                                logb = -l_ + c_ * (1.0 + math.log(l_ / c_))      # log of (e^-l (e l / c)^c)
+                            worst_log = min(worst_log, logb)
                 r.ev()
                 r.count("sampling_checks")
-                r.worst("bernoulli_z/crit", float(z.max()) / 6.1)
-                if float(z.max()) > 6.1:          # two-sided alpha = 1e-9
+                r.worst("bernoulli_tail_logbound/ln(1e-9)", worst_log / math.log(1e-9))
+                if worst_log < math.log(1e-9):          # alpha = 1e-9 per coordinate and side
                     r.viol("samples_not_from_density", "%s samples do not follow its own probabilities" % label,
                            frequencies=freq.tolist(), probabilities=marg.tolist(), **det)
                 else:
@@ -190,6 +226,30 @@ def run_dist(r, case, g):
                     if Dks > crit:
                         r.viol("samples_not_from_density", "%s samples do not follow its own density" % label, ks=Dks, critical=crit,
                                coordinate=k, **det)
+                    else:
+                        r.cell(label, shape, "samples")
+            elif cfg["dist"] == "mademog" and P == 3:
+                # not factorised: marginals from a 3-D tensor grid of the joint density (two resolutions)
+                res = {}
+                for GN in (64, 112):
+                    res[GN] = _grid3(lp, s, GN)
+                tot_lo, tot_hi = res[64][0], res[112][0]
+                if abs(tot_lo - tot_hi) > 5e-3 or abs(tot_hi - 1) > 2e-2:
+                    r.count("ks_undecided")      # under-resolved (normalisation itself is judged above)
+                else:
+                    for k in range(3):
+                        xk, wk, m = res[112][1][k]
+                        cdf = torch.cumsum(m * wk, 0) - 0.5 * m * wk
+                        r.ev()
+                        r.count("sampling_checks")
+                        tot_ = (m * wk).sum()
+                        Dks = q.ks_distance(s[:, k], torch.cat([xk, xk[-1:] + 1.0]), torch.cat([cdf, tot_[None]]))
+                        crit = q.ks_crit(NS) + 3e-3 + abs(tot_hi - 1)     # grid-marginal resolution
+                        r.worst("ks/crit", Dks / crit)
+                        if Dks > crit:
+                            r.viol("samples_not_from_density", "%s samples do not follow its own density" % label, ks=Dks,
+                                   critical=crit, coordinate=k, **det)
+                            break
                     else:
                         r.cell(label, shape, "samples")
             else:
@@ -240,7 +300,7 @@ def run_dist(r, case, g):
                 with torch.no_grad():
                     pj = torch.exp(lp(pts).double())
                 ref = (pj[:, None] * pts.double()).sum(0)
-                tol = 1e-9
+                tol = 1e-9 if torch.get_default_dtype() == torch.float64 else 2e-6
             else:
                 ref = torch.zeros(P, dtype=torch.float64)
                 base_pt = (s[0].clone() if s is not None else torch.zeros(P))
@@ -274,6 +334,26 @@ def _judge_int(r, label, I, est, tol, lim, shape, det):
         r.viol("not_normalised", "%s density does not integrate to one" % label, integral=I, estimate=est, shape=shape, **det)
     else:
         r.cell(label, shape, "normalised")
+
+
+def _grid3(lp, samples, GN):
+    """(integral, [(nodes, weights, marginal density) per axis]) of a 3-D density on a tensor grid placed at the samples' quantiles"""
+    axes = []
+    for k in range(3):
+        cen, sca = q.placement(samples[:, k])
+        axes.append(q.grid_1d(("R",), GN, center=cen, scale=sca))
+    (x0, w0), (x1, w1), (x2, w2) = axes
+    pj = torch.zeros(GN, GN, GN, dtype=torch.float64)
+    for a in range(GN):
+        pts = torch.stack([x0[a].expand(GN, GN), x1[:, None].expand(GN, GN), x2[None, :].expand(GN, GN)], -1).reshape(-1, 3)
+        with torch.no_grad():
+            pj[a] = torch.exp(lp(pts.to(torch.get_default_dtype())).double()).reshape(GN, GN)
+    W = w0[:, None, None] * w1[None, :, None] * w2[None, None, :]
+    total = float((pj * W).sum())
+    m0 = (pj * (w1[:, None] * w2[None, :])[None]).sum((1, 2))
+    m1 = (pj * (w0[:, None] * w2[None, :])[:, None, :]).sum((0, 2))
+    m2 = (pj * (w0[:, None] * w1[None, :])[:, :, None]).sum((0, 1))
+    return total, [(x0, w0, m0), (x1, w1, m1), (x2, w2, m2)]
 
 
 def _importance(r, d, lp, label, shape, P, me, c, g, det):
